@@ -933,7 +933,7 @@ Definition mirrors (os : ostore) (st : state) : Prop :=
 (* such a state always exists *)
 Definition cset_of (os : ostore) (e : N * overlay) : N * cset :=
   (fst e, {| c_base := []; c_changes := o_values (snd e); c_result := [];
-             c_parent := o_parent (snd e); c_anc := o_ancestors (snd e);
+             c_parent := o_parent (snd e); c_seqn := 0; c_anc := o_ancestors (snd e);
              c_status := status_of os (fst e); c_held := held os (fst e);
              c_overlay := false |}).
 
